@@ -749,6 +749,8 @@ impl<W: Write + io::Seek> ZipWriter<W> {
             uncompressed_size: file.size(),
         };
 
+        let compressed_size = raw_values.compressed_size;
+
         // (Before the entry is begun, so that a refusal leaves nothing behind.)
         let raw_reader = file.get_raw_reader()?;
 
@@ -756,7 +758,15 @@ impl<W: Write + io::Seek> ZipWriter<W> {
         self.writing_to_file = true;
         self.writing_raw = true;
 
-        io::copy(raw_reader, self)?;
+        // The headers of the copy announce `compressed_size` bytes: a source that ends early
+        // (a truncated archive, or sizes that point past its end) must not pass for a copy.
+        let copied = io::copy(raw_reader, self)?;
+        if copied != compressed_size {
+            return Err(ZipError::Io(io::Error::new(
+                io::ErrorKind::UnexpectedEof,
+                "The source entry ends before its compressed size is reached",
+            )));
+        }
 
         Ok(())
     }
